@@ -81,7 +81,12 @@ pub fn worker_main(id: &str, tier: Tier, seed: u64, shard: u64, nshards: u64, fr
         .stack_size(CASE_THREAD_STACK)
         .spawn(move || worker_body(&id, tier, seed, shard, nshards, from, work_dir))
         .expect("spawn case thread");
-    let _ = h.join();
+    if h.join().is_err() {
+        // a panic outside the observed format calls is a defect of the harness itself
+        let msg = crate::exec::LAST_PANIC_GLOBAL.lock().map(|g| g.clone()).unwrap_or_default();
+        raw_out(&format!("X {msg}\n"));
+        std::process::exit(70);
+    }
 }
 
 fn worker_body(id: &str, tier: Tier, seed: u64, shard: u64, nshards: u64, from: u64, work_dir: PathBuf) {
@@ -151,7 +156,11 @@ pub fn solo_main(id: &str, tier: Tier, seed: u64, idx: u64, work_dir: PathBuf) {
         .stack_size(CASE_THREAD_STACK)
         .spawn(move || solo_body(&id, tier, seed, idx, work_dir))
         .expect("spawn case thread");
-    let _ = h.join();
+    if h.join().is_err() {
+        let msg = crate::exec::LAST_PANIC_GLOBAL.lock().map(|g| g.clone()).unwrap_or_default();
+        raw_out(&format!("X {msg}\n"));
+        std::process::exit(70);
+    }
 }
 
 fn solo_body(id: &str, tier: Tier, seed: u64, idx: u64, work_dir: PathBuf) {
@@ -379,6 +388,8 @@ pub fn run(id: &str, tier: Tier) -> i32 {
                         Ok(v) => violations.push(v),
                         Err(e) => infra_errors.push(format!("bad violation record: {e}")),
                     }
+                } else if let Some(r) = l.strip_prefix("X ") {
+                    infra_errors.push(format!("harness panic in worker {sh}: {r}"));
                 } else if let Some(r) = l.strip_prefix("H ") {
                     hang_flag[sh] = true;
                     last_started[sh] = r.trim().parse().ok();
